@@ -45,7 +45,7 @@ class Pool(metaclass=abc.ABCMeta):
         raise NotImplementedError
 
     @classmethod
-    def s(cls: Type[C], *args, **kwargs) -> Partial[C]:
+    def s(cls: Type[C], /, *args, **kwargs) -> Partial[C]:
         """
         Create an unbound prototype of this class, partially applying arguments
 
